@@ -26,7 +26,7 @@ OPS = ['Create', 'CreateKeyPair', 'Register', 'DeriveKey', 'Locate', 'Get',
 STATES = ['PreActive', 'Active', 'Deactivated', 'Compromised']
 NPARAM = 6
 ATTR_SWEEP = 3 * 7 * 6     # operation x object type x version
-PARAM_SWEEP = 6 * 3        # parameter family x version
+PARAM_SWEEP = 7 * 3        # parameter family x version
 GRID = len(OPS) * len(gen.OTYPES) * len(STATES) * len(gen.VERSIONS) * NPARAM
 COUNT = {'quick': 5200, 'thorough': GRID + 30000}
 SWEEP = {'quick': 4200, 'thorough': GRID}
@@ -36,7 +36,17 @@ CHUNK = 24
 EXHAUSTIVE = {'quick': False, 'thorough': False}
 RULE = ('grid cell = (operation of 22, stored object type of 7, state of 4, '
         'KMIP version of 6, parameter class of 6) = %d cells: thorough '
-        'sweeps all of them, quick a seeded slice of %d; plus random '
+        'sweeps all of them, quick a seeded slice of %d; plus, complete in '
+        'every run: the attribute table (every attribute name x Set / Modify '
+        '/ Delete x object type x version), the enumerations of the '
+        'cryptographic parameters, an identifier sweep (21 shapes x every '
+        'operation that names an object) and two batches of combinations '
+        '(keying object kind x derivation method x parameter subsets; '
+        'cipher x mode x tag length; wrapping target x specification '
+        'shapes; current / new attribute pairs; key blocks lacking optional '
+        'fields; dates, enumerations, paging numbers and name lists at the '
+        'edges of their types; every key format type on every key kind); '
+        'plus random '
         'well-typed request histories over random stores. Non-trivial: the '
         'handler met an object type it was not written for, or an '
         'attribute outside the rule table, or an unsupported parameter. '
@@ -551,6 +561,91 @@ def generate(rng, tier, index):
                                     'data': '00' * 16, 'iv': '01' * 16,
                                     'cp': {'alg': 3, 'mode': 1,
                                            'padding': pad}})
+        elif kind == 6:
+            # second batch of combinations: values at the edges of their
+            # type in positions the random histories fill with ordinary
+            # ones (dates, enumerations outside their table, empty texts,
+            # paging numbers, key format conversions, lists of names)
+            otype = 'SymmetricKey'
+            extra_setup = [
+                {'op': 'Register', 'label': 'priv', 'otype': 'PrivateKey',
+                 'attrs': [A('Cryptographic Usage Mask', 1)],
+                 'obj': gen.gen_object(ctx, 'PrivateKey')},
+                {'op': 'Register', 'label': 'cert', 'otype': 'Certificate',
+                 'attrs': [A('Cryptographic Usage Mask', 2)],
+                 'obj': gen.gen_object(ctx, 'Certificate')},
+                {'op': 'Register', 'label': 'spl', 'otype': 'SplitKey',
+                 'attrs': [A('Cryptographic Usage Mask', 12)],
+                 'obj': gen.gen_object(ctx, 'SplitKey')}]
+            for d in (0, 1, -1, 2 ** 31, 2 ** 62, 2 ** 63 - 1, -2 ** 63):
+                for code in (1, 2, 3, 7):
+                    probes_.append({'op': 'Revoke', 'uid': '@x',
+                                    'code': code, 'date': d, 'msg': ''})
+            for code in (0, 8, 0x80000000, 2 ** 31 - 1):
+                probes_.append({'op': 'Revoke', 'uid': '@x', 'code': code})
+            for f in ([A('Name', ['', 1])], [A('Name', ['x' * 4000, 1])],
+                      [A('Object Group', '')],
+                      [A('Application Specific Information', ['', ''])],
+                      [A('State', 0)], [A('State', 9)],
+                      [A('State', 2 ** 31 - 1)], [A('Object Type', 0)],
+                      [A('Object Type', 0x7FFFFFFF)],
+                      [A('Cryptographic Algorithm', 0)],
+                      [A('Cryptographic Algorithm', 0x7FFFFFFF)],
+                      [A('Cryptographic Length', -1)],
+                      [A('Cryptographic Length', 2 ** 31 - 1)],
+                      [A('Cryptographic Usage Mask', 0)],
+                      [A('Cryptographic Usage Mask', -1)],
+                      [A('Cryptographic Usage Mask', 2 ** 31 - 1)],
+                      [A('Operation Policy Name', '')],
+                      [A('Certificate Type', 0)],
+                      [A('Certificate Type', 0x7FFFFFFF)]):
+                probes_.append({'op': 'Locate', 'attrs': f})
+            for u in IDENTIFIER_FORMS:
+                probes_.append({'op': 'Locate', 'attrs': [
+                    A('Unique Identifier', u)]})
+            for mx in (0, 1, -1, 2 ** 31 - 1, -2 ** 31):
+                for off in (None, 0, -1, 2 ** 31 - 1, -2 ** 31):
+                    if off is not None and ver < (1, 3):
+                        continue
+                    probes_.append({'op': 'Locate', 'attrs': [], 'max': mx,
+                                    'offset': off})
+            for st in (0, 1, 2, 3, 7, -1, 2 ** 31 - 1):
+                probes_.append({'op': 'Locate', 'attrs': [], 'storage': st})
+            for tgt in ('@x', '@priv', '@cert', '@spl'):
+                for kft in list(range(1, 0x17)) + [0, 0x7FFFFFFF]:
+                    probes_.append({'op': 'Get', 'uid': tgt, 'kft': kft})
+                for kct in (1, 2, 3, 4, 0, 9):
+                    probes_.append({'op': 'Get', 'uid': tgt, 'kct': kct})
+                for kwt in (1, 2, 0, 9):
+                    if ver >= (1, 4):
+                        probes_.append({'op': 'Get', 'uid': tgt, 'kwt': kwt})
+                for names in ([], [''], ['State', 'State'], ['x-custom'],
+                              ['Name'] * 300, ['no such attribute'],
+                              [u'\u00e9'], ['State', '', 'Name']):
+                    probes_.append({'op': 'GetAttributes', 'uid': tgt,
+                                    'names': names})
+            for name in ('Encrypt', 'Decrypt'):
+                for mode in (1, 2, 6, 9):
+                    probes_.append({'op': name, 'uid': '@x', 'data': '',
+                                    'iv': '01' * 16, 'cp': {
+                                        'alg': 3, 'mode': mode,
+                                        'padding': 3, 'tag_len': 16}})
+            for ot2 in ('Certificate', 'OpaqueData', 'PrivateKey',
+                        'PublicKey', 'SplitKey'):
+                probes_.append({'op': 'DeriveKey', 'otype': ot2,
+                                'uids': ['@x'], 'method': 2, 'params': {
+                                    'cp': {'hash': 6}, 'data': 'aabb'},
+                                'attrs': [A('Cryptographic Length', 128),
+                                          A('Cryptographic Algorithm', 3),
+                                          A('Cryptographic Usage Mask',
+                                            12)]})
+            for alg in (1, 2, 3, 5, 6, 7, 0x10, 0x7FFFFFFF):
+                for ln in (0, 512, 1024):
+                    probes_.append({'op': 'CreateKeyPair', 'common': [
+                        A('Cryptographic Algorithm', alg),
+                        A('Cryptographic Length', ln)],
+                        'private': [A('Cryptographic Usage Mask', 1)],
+                        'public': [A('Cryptographic Usage Mask', 2)]})
         elif kind == 5:
             # combinations in which each factor alone is handled: keying
             # objects without an algorithm of their own, wrapping of objects
@@ -698,7 +793,7 @@ def generate(rng, tier, index):
                                         A('Cryptographic Algorithm', 3),
                                         A('Cryptographic Usage Mask', 12)]})
         steps = setup_steps(otype, 'Active', r, ctx)
-        if kind == 5:
+        if kind in (5, 6):
             for op in extra_setup:
                 steps.append({'actor': 0, 'ver': [1, 2], 'items': [op]})
         for op in probes_:
